@@ -303,6 +303,8 @@ def case_groupby_api(ctx, inp):
     parts, km, method = inp["parts"], inp["km"], inp["method"]
     b = mk_bag(parts)
     kw = {"max_branch": inp.get("mb")} if method == "tasks" else {"npartitions": inp.get("nout")}
+    if method == "disk" and inp.get("blocksize"):
+        kw["blocksize"] = inp["blocksize"]       # elements per on-disk block: forces several blocks per partition
     g = b.groupby(lambda x: x % km, shuffle=method, **kw)
     got = [[[k, list(v)] for k, v in p] for p in parts_of(g)]
     flat = [x for p in parts for x in p]
@@ -496,6 +498,9 @@ def case_api(ctx, inp):
             m = inp["m"]
             r = b.repartition(npartitions=m)
             chk("repartition", [list(r), r.npartitions], [seq, m])
+            r2 = b.repartition(partition_size=rng.choice([60, 150, 400, 10 ** 6]))
+            got2 = parts_of(r2)
+            chk("repartition(partition_size)", [[x for p in got2 for x in p], r2.npartitions], [seq, len(got2)])
         elif op == "from_sequence":
             kw = inp["kw"]
             r = db.from_sequence(seq, **kw)
@@ -682,13 +687,17 @@ def generate(ctx):
             parts = [[rng.randint(0, 30) for _ in range(rng.randint(2, 5))] for _ in range(rng.randint(2, 4))]
         yield "groupby_api", {"parts": parts, "km": rng.randint(4, 7) if disk else rng.randint(1, 6),
                               "method": "disk" if disk else "tasks",
-                              "mb": rng.choice([None, 2, 3]), "nout": rng.choice([1, 2]) if disk else rng.choice([None, 1, 3])}
+                              "mb": rng.choice([None, 2, 3]), "nout": rng.choice([1, 2]) if disk else rng.choice([None, 1, 3]),
+                              "blocksize": rng.choice([None, 2, 3]) if disk else None}
     # function level
     for _ in range(ctx.n(120, 1500)):
-        parts = gen_parts(rng, maxparts=rng.choice([4, 9, 17, 30]), maxlen=3, lo=0, hi=40)
+        big = rng.random() < 0.12
+        parts = gen_parts(rng, maxparts=45 if big else rng.choice([4, 9, 17, 30]), maxlen=3, lo=0, hi=40)
+        if big:   # more than 32 partitions: two stages with the DEFAULT max_branch
+            parts = parts + [[rng.randint(0, 40)] for _ in range(max(0, rng.randint(33, 45) - len(parts)))]
         km = rng.randint(1, 8)
         yield "groupby_tasks", {"parts": parts, "km": km, "hashes": [rng.randint(0, rng.choice([5, 50, 10 ** 6])) for _ in range(km)],
-                                "mb": rng.choice([None, 2, 2, 3, 4])}
+                                "mb": None if big else rng.choice([None, 2, 2, 3, 4])}
     for n in range(0, 14 if not th else 40):
         for k in range(1, 8 if not th else 12):
             yield "from_sequence", {"n": n, "npartitions": k}
